@@ -1,9 +1,200 @@
-import Model.Common
-/-! Oracle handlers for C13 (stub until the property's model exists). -/
-namespace OracleC13
-open Common
+import Model.C13
+import Oracle.C12
+/-!
+Oracle handlers for C13.
 
-def handle (_cmd : String) (_f : List String) : String × String × String :=
-  ("unknown-cmd", "-", "-")
+* `C13.hist  za rf streams steps | long fresh` — one long-lived `Ring` (caches on) fed with the
+  update steps and asked the query steps; `long` / `fresh` are the `|`-separated answers of the
+  long-lived client and of a client freshly built (cache-less) from the latest descriptor.
+  steps: `U!kind!desc`, `Q!S!ident!size`, `Q!L!ident!size!period!now`, `Q!G!key`, `Q!C`, `Q!A`,
+  `Q!I!id`, `Q!X!…` (queries that are judged but not modelled: replication sets for other
+  operations / replication factors, token ranges, Get on the returned sub-ring).
+  An answer may carry `#`-separated components; the model reproduces a prefix of them.
+* `C13.phist rfcache streams steps | long fresh` — the same for `PartitionRingWatcher`.
+
+diff  = the model of the long-lived client reproduces the long-lived client's answers;
+judge = every answer of the long-lived client equals the fresh client's answer.
+-/
+namespace OracleC13
+open Common Ring C12 C13
+
+def parseStreams (s : String) : Option (List ((String × String) × Array Nat)) :=
+  if s == "-" then some [] else
+  (s.splitOn "|").mapM fun p => match p.splitOn "=" with
+    | [iz, vs] =>
+      match iz.splitOn "@" with
+      | [i, z] => do pure ((i, str? z), (← natList? vs).toArray)
+      | _ => none
+    | _ => none
+
+def startsFn (st : List ((String × String) × Array Nat)) : Streams := fun i z n =>
+  match st.lookup (i, z) with
+  | some a => a.getD n 0
+  | none => 0
+
+def showCmp : Cmp → String
+  | .equal => "E" | .equalButStatesAndTimestamps => "S" | .different => "D"
+
+def zonesOfMembers (d : Desc) : Nat := (OracleC12.dedup (d.map (·.zone))).length
+
+def showSub (d : Desc) : String := s!"{showDesc d}#{d.length}#{zonesOfMembers d}"
+
+def zoneNames : List String := ["", "a", "b", "c", "d", "e"]
+
+def showCounts (c : Counts) : String :=
+  s!"{c.instances},{c.zones},{c.withTokens},{c.writableWithTokens};" ++
+  ";".intercalate (c.perZone.map fun (z, a, b, w) => s!"{showStr z}:{a}:{b}:{w}")
+
+/-- number of `#` components of an answer the model reproduces. -/
+def prefixOf (ans : String) (n : Nat) : String := "#".intercalate ((ans.splitOn "#").take n)
+
+structure St where
+  c : Client
+  out : List String := []   -- model answers (reversed)
+  hits : Nat := 0           -- queries served from a shuffle-shard cache
+
+def step (st : Streams) (s : St) (stepStr : String) (implAns : String) : St :=
+  let put := fun (c : Client) (a : String) => ({ c := c, out := a :: s.out, hits := s.hits } : St)
+  let putH := fun (h : Bool) (c : Client) (a : String) => ({ c := c, out := a :: s.out, hits := if h then s.hits + 1 else s.hits } : St)
+  match stepStr.splitOn "!" with
+  | ["U", _kind, d] =>
+    match parseDesc d with
+    | some d => put (update s.c d) (showCmp (ringCompare s.c.desc d))
+    | none => put s.c "parse-error"
+  | ["Q", "S", ident, size, _key] =>
+    match size.toInt? with
+    | some size =>
+      let hit := (lookupAssoc (⟨ident, size⟩ : Key) s.c.cache).isSome
+      let (m, c') := queryShard s.c st ident size; putH hit c' (showSub m)
+    | none => put s.c "parse-error"
+  | ["Q", "L", ident, size, period, now, _key] =>
+    match size.toInt?, period.toInt?, now.toInt? with
+    | some size, some period, some now =>
+      let hit := match lookupAssoc (⟨ident, size, period⟩ : LKey) s.c.lbCache with
+        | some e => !(now - period < e.after || now - period > e.before)
+        | none => false
+      let (m, c') := queryShardLB s.c st ident size period now; putH hit c' (showSub m)
+    | _, _, _ => put s.c "parse-error"
+  | ["Q", "G", key] =>
+    match key.toNat? with
+    | some key => put s.c (match get1 s.c key with | some i => showInst i | none => "err")
+    | none => put s.c "parse-error"
+  | ["Q", "C"] => put s.c (showCounts (counts s.c zoneNames))
+  | ["Q", "A"] => put s.c (showDesc s.c.desc)
+  | ["Q", "I", id] => put s.c (match s.c.desc.get? (str? id) with | some i => showInst i | none => "err")
+  | _ => put s.c implAns   -- not modelled: judged only
+
+def modelled (stepStr : String) : Nat :=
+  match stepStr.splitOn "!" with
+  | "Q" :: "S" :: _ => 3
+  | "Q" :: "L" :: _ => 3
+  | _ => 1000
+
+/-- erase the `versions` field of every instance encoding inside an answer. -/
+def eraseVersions (ans : String) : String :=
+  "#".intercalate ((ans.splitOn "#").map fun comp =>
+    ";".intercalate ((comp.splitOn ";").map fun inst =>
+      match inst.splitOn "/" with
+      | [a, b, c, d, e, f, g, h, i, _] => "/".intercalate [a, b, c, d, e, f, g, h, i, "*"]
+      | _ => inst))
+
+def kindOf (stepStr : String) : String :=
+  match stepStr.splitOn "!" with
+  | "U" :: k :: _ => "U" ++ k
+  | "Q" :: k :: _ => k
+  | _ => "?"
+
+def handleHist (f : List String) : String × String × String :=
+  match f with
+  | [za, _rf, streams, steps, long, fresh] =>
+    match parseStreams streams with
+    | some st =>
+      let starts := startsFn st
+      let stepsL := steps.splitOn "|"
+      let longL := long.splitOn "|"
+      let freshL := fresh.splitOn "|"
+      if stepsL.length != longL.length || stepsL.length != freshL.length then ("bad-lengths", "-", "-") else
+      let init : St := { c := { cfg := ⟨za == "1"⟩ } }
+      let fin := (stepsL.zip longL).foldl (fun s (sp, a) => step starts s sp a) init
+      let model := fin.out.reverse
+      let diffs := ((stepsL.zip (model.zip longL)).zipIdx.filterMap fun ((sp, m, a), i) =>
+        let n := modelled sp
+        if prefixOf m n == prefixOf a n then none else some s!"step{i}:{kindOf sp}={m}")
+      let diff := match diffs with | [] => "-" | d :: _ => d
+      -- judge: long-lived answer = fresh answer, for every step
+      let js := (stepsL.zip (longL.zip freshL)).filterMap fun (sp, a, b) =>
+        if a == b then none
+        else if eraseVersions a == eraseVersions b then some "stale_versions"
+        else some ("stale_" ++ kindOf sp)
+      let kinds := OracleC12.dedup (stepsL.map kindOf)
+      let nU := (stepsL.filter (·.startsWith "U")).length
+      let cmpKinds := OracleC12.dedup ((stepsL.zip longL).filterMap fun (sp, a) => if sp.startsWith "U" then some a else none)
+      let hits := fin.hits
+      let tags := s!"k=hist za={za} steps={OracleC12.bucket stepsL.length} upd={OracleC12.bucket nU} cmp={"".intercalate cmpKinds} hits={OracleC12.bucket hits} kinds={kinds.length} triv={if nU ≤ 1 then 1 else 0}"
+      (diff, OracleC12.reasons js, tags)
+    | none => ("parse-error", "-", "-")
+  | _ => ("bad-arity", "-", "-")
+
+/-! ### partition ring client -/
+
+def parsePStreams (s : String) : Option (List (String × Array Nat)) :=
+  if s == "-" then some [] else
+  (s.splitOn "|").mapM fun p => match p.splitOn "=" with
+    | [i, vs] => do pure (i, (← natList? vs).toArray)
+    | _ => none
+
+def pstartsFn (st : List (String × Array Nat)) : PStreams := fun i n =>
+  match st.lookup i with
+  | some a => a.getD n 0
+  | none => 0
+
+structure PSt' where
+  c : PClient
+  out : List String := []
+
+def pstep (st : PStreams) (s : PSt') (stepStr : String) (implAns : String) : PSt' :=
+  let put := fun (c : PClient) (a : String) => ({ c := c, out := a :: s.out } : PSt')
+  match stepStr.splitOn "!" with
+  | ["U", _kind, d] =>
+    match OracleC12.parseParts d with
+    | some ps => put (pupdate s.c ps) "-"
+    | none => put s.c "parse-error"
+  | ["Q", "S", ident, size] =>
+    match size.toInt? with
+    | some size => let (ids, c') := pqueryShard s.c st ident size; put c' (OracleC12.showInts ids)
+    | none => put s.c "parse-error"
+  | ["Q", "L", ident, size, period, now] =>
+    match size.toInt?, period.toInt?, now.toInt? with
+    | some size, some period, some now => let (ids, c') := pqueryShardLB s.c st ident size period now; put c' (OracleC12.showInts ids)
+    | _, _, _ => put s.c "parse-error"
+  | _ => put s.c implAns
+
+def handlePHist (f : List String) : String × String × String :=
+  match f with
+  | [_cache, streams, steps, long, fresh] =>
+    match parsePStreams streams with
+    | some st =>
+      let starts := pstartsFn st
+      let stepsL := steps.splitOn "|"
+      let longL := long.splitOn "|"
+      let freshL := fresh.splitOn "|"
+      if stepsL.length != longL.length || stepsL.length != freshL.length then ("bad-lengths", "-", "-") else
+      let fin := (stepsL.zip longL).foldl (fun s (sp, a) => pstep starts s sp a) ({ c := {} } : PSt')
+      let model := fin.out.reverse
+      let diffs := ((stepsL.zip (model.zip longL)).zipIdx.filterMap fun ((sp, m, a), i) =>
+        if prefixOf m 1 == prefixOf a 1 then none else some s!"step{i}:{kindOf sp}={m}")
+      let diff := match diffs with | [] => "-" | d :: _ => d
+      let js := (stepsL.zip (longL.zip freshL)).filterMap fun (sp, a, b) =>
+        if a == b then none else some ("p_stale_" ++ kindOf sp)
+      let nU := (stepsL.filter (·.startsWith "U")).length
+      let tags := s!"k=phist steps={OracleC12.bucket stepsL.length} upd={OracleC12.bucket nU} cached={if fin.c.cache.length + fin.c.lbCache.length > 0 then 1 else 0} triv={if nU ≤ 1 then 1 else 0}"
+      (diff, OracleC12.reasons js, tags)
+    | none => ("parse-error", "-", "-")
+  | _ => ("bad-arity", "-", "-")
+
+def handle (cmd : String) (f : List String) : String × String × String :=
+  if cmd == "C13.hist" then handleHist f
+  else if cmd == "C13.phist" then handlePHist f
+  else ("unknown-cmd", "-", "-")
 
 end OracleC13
